@@ -518,7 +518,7 @@ func (r *qrunner) phase(dir string, depth int, m *qmodel, recovered *qimage, lab
 				run.Probe("append-accepted")
 			case errors.Is(err, hh.ErrQueueFull):
 				// legal only if the size limit can be the reason: even everything ever appended plus footers would exceed it
-				if int64(8*(len(m.all)+2))+m.written+int64(len(b.data))+8 <= r.p.MaxSize {
+				if int64(8*(q.SegmentCount()+1))+m.written+int64(len(b.data))+8 <= r.p.MaxSize {
 					fail("append-refused-without-reason", "", "%s op%d: ErrQueueFull although everything ever appended (%d bytes) plus this block (%d) fits max size %d", label, i, m.written, len(b.data), r.p.MaxSize)
 				}
 				run.Probe("append-refused-size-limit")
